@@ -441,6 +441,10 @@ class Check:
         for (key, what, path, found) in self.violations:
             print("  violation: %s" % what[:1000])
             print("VIOLATION property=%s replay=%s%s" % (self.pid, path, "" if found else " no-failing-input-found"), flush=True)
+        if self.replay is not None:
+            k = self.replay.get("key")
+            hit = any(v[0] == k for v in self.violations) or k in self.known_hits
+            print("REPLAY key=%s %s" % (k, "reproduced" if hit else "NOT reproduced on the current tree"))
         if not self.violations:
             print("OK property=%s tier=%s obligations=%d/%d evaluations=%d wall=%.1fs" % (
                 self.pid, self.tier, cov["discharged"], cov["obligations"], cov["evaluations"], time.time() - self.t0))
